@@ -290,6 +290,56 @@ func concurrentKeygen(seed int64, nthreads, bound int) mc.Scenario {
 	}}
 }
 
+// entropyFailure: the random source breaks at its k-th read, possibly after a
+// run of rejected candidates: NewKeypair reports the failure or returns a key
+// pair that satisfies the property -- never garbage with a nil error.
+func entropyFailure(seed int64, streak, failAt int) mc.Scenario {
+	return mc.Scenario{Name: fmt.Sprintf("ntor-newkeypair/entropy-failure/after-%d-rejected/read-%d", streak, failAt), Weight: 1, Run: func(c *mc.Ctx) {
+		src := rnd.New(seed, "c07-streak")
+		var script []byte
+		for n := 0; n < streak; {
+			in := src.Bytes(32)
+			d := sha512.Sum512(in)
+			var priv, pub, repr [32]byte
+			copy(priv[:], d[:32])
+			if !x25519ell2.ScalarBaseMult(&pub, &repr, &priv, d[63]) {
+				script = append(script, in...)
+				n++
+			}
+		}
+		for _, ell := range []bool{true, false} {
+			st := rnd.New(seed, "c07-entropy-tail")
+			st.Script = append([]byte{}, script...)
+			st.FailAfter = failAt
+			rnd.Install(st)
+			kp, err := ntor.NewKeypair(ell)
+			c.AddExecutions(1)
+			if err != nil {
+				c.Observe(fmt.Sprint(ell), "error")
+				continue
+			}
+			if ell {
+				if !checkKeypair(c, kp, fmt.Sprintf("NewKeypair(elligator) with the random source failing at its read %d after %d rejected candidates returned no error", failAt, streak)) {
+					return
+				}
+			} else {
+				var want [32]byte
+				curve25519.ScalarBaseMult(&want, kp.Private().Bytes())
+				if want != *kp.Public().Bytes() {
+					fail(c, "keypair", "keypair/entropy-failure", "NewKeypair(false) with the random source failing at its read %d returned no error and a public key that is not the public key of its private key", failAt)
+					return
+				}
+				var zero [32]byte
+				if *kp.Private().Bytes() == zero {
+					fail(c, "keypair", "keypair/entropy-failure", "NewKeypair(false) with a failing random source returned an all-zero private key and no error")
+					return
+				}
+			}
+			c.Observe(fmt.Sprint(ell), "keypair")
+		}
+	}}
+}
+
 // checkKeypair applies the C07 oracle to one generated ntor key pair.
 func checkKeypair(c *mc.Ctx, kp *ntor.Keypair, what string) bool {
 	repr0 := *kp.Representative()
@@ -478,6 +528,10 @@ func main() {
 		} else {
 			emit(concurrentKeygen(cfg.Seed, 2, 2))
 			emit(concurrentKeygen(cfg.Seed, 3, 1))
+		}
+		for _, streak := range []int{0, 1, 3} {
+			emit(entropyFailure(cfg.Seed, streak, streak+1))
+			emit(entropyFailure(cfg.Seed, streak, streak+2))
 		}
 		for _, n := range []int{1, 63, 64, 65, 130} {
 			emit(unluckyStreak(cfg.Seed, n))
